@@ -61,6 +61,7 @@ def run(idx: ProgramIndex, rep: Report, tier: str):
     axis_addressing(idx, rep, fs)
     saved_outputs_intact(idx, rep)
     outputs_are_computed(idx, rep, fs)
+    once_differentiable_backward(idx, rep, fs)
     rep.assume("callables passed into a Function (sq_dist_func, dist_func) return freshly allocated tensors (Kernel.covar_dist does)")
 
 
@@ -737,3 +738,48 @@ def outputs_are_computed(idx: ProgramIndex, rep: Report, fs):
         rep.add("C19-8", "%s:%s" % (cls.module.name, cls.qualname), fwd.where, not probs,
                 "%d output(s), each computed from the inputs or ignored by backward" % nouts if not probs else "; ".join(sorted(probs)), {})
     rep.floor("C19-8", "autograd Functions", n, 6)
+
+
+# ---- C19-9 ---------------------------------------------------------------------------------------------------------
+def once_differentiable_backward(idx: ProgramIndex, rep: Report, fs):
+    """Inside Function.forward autograd is off: whatever forward computes and hands to backward through save_for_backward / ctx attributes
+    - other than the Function's own inputs and outputs, which torch re-attaches to the graph - is a constant as far as a *second*
+    differentiation is concerned.  A backward that multiplies the incoming gradient by such a graph-free intermediate therefore
+    differentiates to garbage (the d/d theta of the intermediate is dropped; the Hessian of an exact-GP NLL comes out with the wrong
+    sign) without any error.  The remedy torch provides is `@once_differentiable`: a second backward raises instead.  Rule: a Function
+    whose backward consumes graph-free intermediates marks its backward once-differentiable."""
+    rep.rule("C19-9", "a hand-written backward that consumes graph-free intermediates of forward (saved values that are neither inputs nor outputs; ctx attributes) is marked @once_differentiable: second-order derivatives raise instead of being silently wrong")
+    n = 0
+    for cls in fs:
+        fwd, bwd = cls.methods.get("forward"), cls.methods.get("backward")
+        if fwd is None or bwd is None:
+            continue
+        n += 1
+        inputs = set(fwd.params[1:])
+        outs = set()
+        for r in (x for x in ast.walk(fwd.node) if isinstance(x, ast.Return) and x.value is not None):
+            for e in (r.value.elts if isinstance(r.value, ast.Tuple) else [r.value]):
+                if isinstance(e, ast.Name):
+                    outs.add(e.id)
+        inter = set()
+        for c in calls_in(fwd.node):
+            if isinstance(c.func, ast.Attribute) and c.func.attr == "save_for_backward":
+                for a in c.args:
+                    if isinstance(a, ast.Name) and a.id not in inputs and a.id not in outs:
+                        inter.add(a.id)
+                    elif not isinstance(a, ast.Name):
+                        inter.add(" ".join(src(a).split())[:30])
+        ctxn = fwd.params[0]
+        for a in ast.walk(fwd.node):
+            if isinstance(a, ast.Assign):
+                for t in a.targets:
+                    if isinstance(t, ast.Attribute) and isinstance(t.value, ast.Name) and t.value.id == ctxn and not isinstance(a.value, ast.Constant):
+                        # flags / python scalars are harmless; tensors computed in forward are intermediates
+                        if not (isinstance(a.value, ast.Call) and (chain(a.value.func) or "") in ("any", "all", "bool", "int", "float", "len")) and not isinstance(a.value, (ast.Compare, ast.BoolOp)):
+                            inter.add("ctx." + t.attr)
+        decorated = any("once_differentiable" in src(d) for d in bwd.node.decorator_list)
+        ok = decorated or not inter
+        rep.add("C19-9", "%s:%s.backward" % (cls.module.name, cls.qualname), bwd.where, ok,
+                ("marked @once_differentiable" if decorated else "backward consumes only inputs / outputs of forward (re-attached by torch)") if ok else
+                "backward consumes the graph-free intermediate(s) %s of forward but is not marked @once_differentiable: a second differentiation (Hessians, gradient penalties) silently treats them as constants" % ", ".join(sorted(inter)), {"intermediates": sorted(inter)})
+    rep.floor("C19-9", "autograd Functions", n, 6)
